@@ -106,7 +106,8 @@ def gen_lits():
 
     # tombstone text (remove_value)
     body, _ = fn_body("bo.rs", r"pub fn remove_value\b[^{]*\{", "remove_value")
-    m = re.search(r'&String::from\("((?:[^"\\]|\\.)*)"\),\s*value\.version[^,]*,\s*ValueStatus::Deleted', body)
+    m = (re.search(r'&String::from\("((?:[^"\\]|\\.)*)"\),\s*value\.version[^,]*,\s*ValueStatus::Deleted', body)
+         or re.search(r'value:\s*String::from\("((?:[^"\\]|\\.)*)"\),\s*version:\s*version[^,]*,\s*state:\s*ValueStatus::Deleted', body))
     if not m: raise ExtractError("locator 'remove_value tombstone' not found")
     emit("tombstoneValue", unescape(m.group(1)), "bo.rs remove_value tombstone text")
     m = re.search(r'msg:\s*"((?:[^"\\]|\\.)*)"\.to_string\(\)', body)
